@@ -3,6 +3,7 @@
 package pfcpiface
 
 import (
+	"google.golang.org/grpc/metadata"
 	"context"
 	"errors"
 	"fmt"
@@ -334,7 +335,7 @@ type vUP4Env struct {
 func vNewUP4(poolCells int64, sliceID, defaultTC uint8, qfiToTC map[uint8]uint8) *vUP4Env {
 	info := vP4InfoSized(poolCells)
 	srv := vNewP4Server(info)
-	cl := &P4rtClient{client: srv, deviceID: 1, P4Info: info}
+	cl := &P4rtClient{client: srv, deviceID: 1, P4Info: info, stream: &vStream{}}
 	if vInEngine() {
 		vInstallBurstStub()
 		vOverride("(*github.com/omec-project/upf-epc/pfcpiface.P4rtClient).CheckStatus", func(c *P4rtClient) connectivity.State { return connectivity.Ready })
@@ -407,3 +408,31 @@ func vInstallBurstStub() {
 }
 
 var vBurstLoose = 0
+
+// vStream is the P4Runtime stream of the in-harness client: it records what is
+// sent (packet-outs) and never delivers anything.
+type vStream struct {
+	mu   sync.Mutex
+	sent [][]byte
+}
+
+func (s *vStream) Send(m *p4.StreamMessageRequest) error {
+	s.mu.Lock()
+	defer s.mu.Unlock()
+	if pk := m.GetPacket(); pk != nil {
+		s.sent = append(s.sent, pk.Payload)
+	}
+	return nil
+}
+func (s *vStream) nsent() int {
+	s.mu.Lock()
+	defer s.mu.Unlock()
+	return len(s.sent)
+}
+func (s *vStream) Recv() (*p4.StreamMessageResponse, error) { select {} }
+func (s *vStream) Header() (metadata.MD, error)              { return nil, nil }
+func (s *vStream) Trailer() metadata.MD                      { return nil }
+func (s *vStream) CloseSend() error                          { return nil }
+func (s *vStream) Context() context.Context                  { return context.Background() }
+func (s *vStream) SendMsg(m interface{}) error               { return nil }
+func (s *vStream) RecvMsg(m interface{}) error               { select {} }
